@@ -41,6 +41,7 @@ from elementpath.compare import get_key_function, same_key
 from elementpath.tree_builders import get_node_tree
 from elementpath.xpath_nodes import XPathNode, DocumentNode, EtreeElementNode
 from elementpath.xpath_tokens import XPathFunction, XPathConstructor, XPathMap, XPathArray
+from elementpath.xpath_tokens.maps import BOOLEAN_KEYS
 from elementpath.xpath_context import XPathSchemaContext
 from elementpath.validators import validate_json_to_xml
 
@@ -156,8 +157,8 @@ def evaluate__map_put(self: XPathFunction, context: ta.ContextType = None) -> XP
     if value is None:
         value = []
 
-    items = {k: v for k, v in map_.items(context) if not same_key(k, key)}
-    items[key] = value
+    items = [(k, v) for k, v in map_.items(context) if not same_key(k, key)]
+    items.append((key, value))
     return XPathMap(self.parser, items=items)
 
 
@@ -216,6 +217,9 @@ def evaluate__map_merge(self: XPathFunction, context: ta.ContextType = None) -> 
         if not isinstance(map_, XPathMap):
             raise self.error('XPTY0004', "1st argument must be a sequence of maps")
         for k1, v in map_.items(context):
+            if isinstance(k1, bool):
+                k1 = BOOLEAN_KEYS[k1]  # an xs:boolean is never the same key as a number
+
             # Speed up for certain key types or float values
             if isinstance(k1, SAFE_KEY_ATOMIC_TYPES) or \
                     isinstance(k1, float) and not math.isnan(k1):
@@ -270,7 +274,7 @@ def evaluate__map_find(self: XPathFunction, context: ta.ContextType = None) -> X
                 collect_matching_items(y)
         elif isinstance(obj, XPathMap):
             for k, v in obj.items(context):
-                if k == key:
+                if same_key(k, key):
                     items.append(v)
                 collect_matching_items(v)
 
